@@ -111,7 +111,7 @@ def gc (m : List (Int × List String)) (blockNo : Int) : List (Int × List Strin
   m.filter (fun e => !(decide (e.1 < gcBlockNo)))
 
 /-- An id `Cluster.Update` can decode (`types.IDB58Decode`). The harness marks undecodable ids with `!`. -/
-def idOk (id : String) : Bool := !(id.startsWith "!")
+def idOk (id : String) : Bool := !(id.toList.head? == some '!')
 
 /-- `getCurrentCluster`: `load` is what `loadClusterSnapshot` yields (ranking in the stored state of block
 `snapBlockNo blockNo`), `none` if it fails. -/
@@ -135,9 +135,9 @@ def addSnapshot (s : Snaps) (ref : Int) (rank load : Option (List String)) : Sna
   else match rank with
     | none => (s, none)
     | some bps =>
-      let s := { s with snaps := insert s.snaps ref bps }
-      let (s, out) := if Snapshots_NeedToRefresh ref then updateCluster s ref load else (s, some bps)
-      ({ s with snaps := gc s.snaps ref }, out)
+      let s1 := { s with snaps := insert s.snaps ref bps }
+      let r := if Snapshots_NeedToRefresh ref then updateCluster s1 ref load else (s1, some bps)
+      ({ r.1 with snaps := gc r.1.snaps ref }, r.2)
 
 /-- `NewCluster` + `NewSnapshots` at process start with best block `best`. -/
 def boot (genesis : List String) (best : Int) (load : Option (List String)) : Snaps :=
@@ -151,11 +151,13 @@ structure Blk where
   tsNs : Int
   hdr : Rec
 
-/-- What the node remembers of an accepted block: the block, the producer list in force and the clock. -/
+/-- What the node remembers of an accepted block: the block, the producer list in force, the clock, and (ghost) the
+rankings of the chain the block extended (`ranks[k]` for block `k` up to its parent). -/
 structure Accepted where
   blk : Blk
   ids : List String
   nowNs : Int
+  ranks : List (List String)
 
 structure Node where
   sn : Snaps
@@ -182,7 +184,7 @@ def Node.step {Key : Type} (c : Crypto Key) (iv : Int) (n : Node) : Ev → Node
         && accept c iv n.sn.members now none b.hdr b.no b.tsNs then
       let ranks := n.ranks ++ [rank]
       { sn := (addSnapshot n.sn b.no (some rank) (loadOf ranks b.no)).1, best := b.no, ranks := ranks,
-        log := { blk := b, ids := n.sn.members, nowNs := now } :: n.log }
+        log := { blk := b, ids := n.sn.members, nowNs := now, ranks := n.ranks } :: n.log }
     else n
   | .rollback to =>
     if 0 ≤ to && to ≤ n.best then
